@@ -1189,6 +1189,9 @@ func (e *Exec) siteAsserts(fr *Frame, st *State, pos token.Pos, kind int) {
 				continue
 			}
 			t := e.evalClauseAt(fr, a.Clause, st, nil)
+			if os.Getenv("SHVC_DEBUG") != "" {
+				fmt.Fprintf(os.Stderr, "assert %s = %s\n", a.Clause.Label, e.c.Show(t))
+			}
 			fr.oldOverride = nil
 			if a.Assume {
 				e.assumed["assumed at a call site (contract 'assume' clause): "+a.Clause.Label+": "+a.Clause.Text] = true
